@@ -51,6 +51,9 @@ template<class Archive> void serialize(Archive& ar, Triv& t, unsigned /*version*
 template<class Archive> void serialize(Archive& ar, StrElem& t, unsigned /*version*/) { ar& boost::serialization::make_nvp("s", t.s); }
 template<class Archive> void serialize(Archive& ar, NestElem& t, unsigned /*version*/) { ar& boost::serialization::make_nvp("a", t.a); }
 
+template<int D, class A, std::size_t... I> void reindex_all_impl(A& a, int base, std::index_sequence<I...>) { a.reindex(((void)I, static_cast<boost::multi::index>(base))...); }
+template<int D, class A> void reindex_all(A& a, int base) { reindex_all_impl<D>(a, base, std::make_index_sequence<D>{}); }
+
 template<class Obj> void save_object(std::vector<char>& bytes, int arch, Obj& obj) {
 	membuf       mb(&bytes, 0);
 	std::ostream os(&mb);
@@ -96,11 +99,21 @@ template<class Cfg>
 bool Exec<Cfg>::ser_save(Op const& op) {
 	bool              handled = true;
 	std::vector<char> bytes;
-	if(op.var == 0) {
+	if(op.var == 0 || op.var == 2) {
 		handled = with_dim(op.da, [&](auto Dc) {
 			constexpr int D = decltype(Dc)::value;
 			Arr<D>&       a = pool<D>().at(op.a);
-			OpScope       s;
+			if constexpr(!Cfg::static_arrays) {
+				if(op.var == 2) reindex_all<D>(a, 1);  // the same value under index base 1 (restored below)
+			}
+			struct Restore {
+				Arr<D>& a;
+				bool    on;
+				~Restore() {
+					if constexpr(!Cfg::static_arrays) { if(on) reindex_all<D>(a, 0); }
+				}
+			} restore{a, op.var == 2};
+			OpScope s;
 			save_object(bytes, op.arch, a);
 		});
 	} else {
@@ -127,7 +140,14 @@ bool Exec<Cfg>::ser_load(Op const& op) {
 		handled = with_dim(op.da, [&](auto Dc) {
 			constexpr int D = decltype(Dc)::value;
 			Arr<D>&       a = pool<D>().at(op.a);
-			OpScope       s;
+			struct Restore {  // a file saved under index base 1 loads an array with base 1: the harness works zero-based
+				Arr<D>& a;
+				bool    on;
+				~Restore() {
+					if constexpr(!Cfg::static_arrays) { if(on) reindex_all<D>(a, 0); }
+				}
+			} restore{a, f.base != 0};
+			OpScope s;
 			load_object(bytes, f.arch, chunk_r_, a);
 		});
 	} else {
